@@ -46,6 +46,10 @@ var (
 	// unsigned → int64: the converted value is negative exactly when the source was ≥ 2^63
 	reConvCheckU64 = regexp.MustCompile(`^v = (int64)\(tv\) ; if int64\(tv\) < 0 \{ err = newCoerceErr\((?:v|tv), "\w+"\) \}$`)
 	reFmtUint      = regexp.MustCompile(`^v = strconv\.FormatUint\((tv|uint64\(tv\)), 10\)$`)
+	// finiteness-checked float arms: non-finite (overflowed, NaN, ±Inf) values are refused with nil
+	reFinite3264 = regexp.MustCompile(`^v = (float32|float64)\(tv\) ; if math\.IsInf\(float64\((?:float32\(tv\)|tv)\), 0\) \|\| tv != tv \{ v = nil err = newCoerceErr\(tv, "\w+"\) \}$`)
+	reFiniteAsIs = regexp.MustCompile(`^if math\.IsInf\((float64\(tv\)|tv), 0\) \|\| tv != tv \{ v = nil err = newCoerceErr\(tv, "\w+"\) \}$`)
+	reParseFltFin = regexp.MustCompile(`^var f float64 ; if f, err = strconv\.ParseFloat\(tv, 64\); err == nil \{ v = f if math\.IsInf\(f, 0\) \|\| f != f \{ v = nil err = newCoerceErr\(tv, "\w+"\) \} \}$`)
 	reFailA        = regexp.MustCompile(`^err = newCoerceErr\((v|tv), ("\w+"|t\.N|t\.Name\(\))\) ; v = nil$`)
 	reFailB        = regexp.MustCompile(`^v = nil ; err = newCoerceErr\((v|tv), ("\w+"|t\.N|t\.Name\(\))\)$`)
 	reItoa         = regexp.MustCompile(`^v = strconv\.Itoa\((tv|int\(tv\))\)$`)
@@ -100,6 +104,29 @@ func actionOf(body string, pos string, kinds []string) string {
 			return unknown("coerce_arm_fmtuint_kind", pos)
 		}
 		return ".fmtUint"
+	case reFinite3264.MatchString(body):
+		// v = T(tv) then the finiteness test of the *converted* value (float32(tv) for a float32 target, tv itself
+		// when widening) — tied to the arm's kind
+		m := reFinite3264.FindStringSubmatch(body)
+		narrowed := strings.Contains(body, "float64(float32(tv))")
+		switch {
+		case m[1] == "float32" && narrowed && all(func(k string) bool { return k == "float64" }):
+			return ".convStrict .f32"
+		case m[1] == "float64" && !narrowed && all(func(k string) bool { return k == "float32" }):
+			return ".convStrict .f64"
+		}
+		return unknown("coerce_arm_finite_conv", pos)
+	case reFiniteAsIs.MatchString(body):
+		m := reFiniteAsIs.FindStringSubmatch(body)
+		switch {
+		case m[1] == "tv" && all(func(k string) bool { return k == "float64" }):
+			return ".convStrict .f64"
+		case m[1] == "float64(tv)" && all(func(k string) bool { return k == "float32" }):
+			return ".convStrict .f32"
+		}
+		return unknown("coerce_arm_finite_asis", pos)
+	case reParseFltFin.MatchString(body):
+		return ".parseFloatFinite"
 	case reConv.MatchString(body):
 		return ".conv ." + convTargets[reConv.FindStringSubmatch(body)[1]]
 	case reFailA.MatchString(body), reFailB.MatchString(body):
